@@ -8,6 +8,7 @@ Oracle: Python's own int()/float() and string equality, with exact result type.
 
 import itertools
 
+from mc import core
 from mc.core import Unit, watchdog
 
 ID = "C04"
@@ -159,6 +160,63 @@ def unit_rereg(arg):
     return u
 
 
+ROOT_LOADERS = ["str", "file", "file+global_repository", "file+FQNImportURI", "file+PlainNameGlobalRepo", "file+FQNGlobalRepo"]
+ROOT_LITERALS = {"INT": [("-42", -42), ("007", 7)], "FLOAT": [("1.5e3", 1500.0)], "STRICTFLOAT": [("2.", 2.0)], "NUMBER": [("7", 7), ("7.5", 7.5)],
+                 "BOOL": [("true", True), ("0", False)], "STRING": [('"abc"', "abc"), ("'a\\'b'", "a'b"), ('""', "")]}
+
+
+def root_case(rule, text, expected, loader, good=True):
+    """the base type is the ROOT rule: the model IS the Python value, whichever way it is loaded"""
+    import os
+
+    from textx import metamodel_from_str
+    from textx.exceptions import TextXSyntaxError
+    from textx.scoping import GlobalModelRepository, providers
+
+    mm_ = metamodel_from_str("Model: %s;" % rule, global_repository=(loader == "file+global_repository"))
+    for pn in ("FQNImportURI", "PlainNameGlobalRepo", "FQNGlobalRepo"):
+        if loader == "file+" + pn:
+            mm_.register_scope_providers({"*.*": getattr(providers, pn)()})
+    obs = {"root_rule": rule, "text": text, "loader": loader, "expected": repr(expected) if good else "TextXSyntaxError"}
+    try:
+        if loader == "str":
+            v = mm_.model_from_str(text)
+        else:
+            fn = os.path.join(core.rundir(), "c04root-%d.m" % os.getpid())
+            with open(fn, "w") as f:
+                f.write(text)
+            kw = {"pre_ref_resolution_callback": None}
+            if loader == "file+caller-repository":
+                v = mm_.internal_model_from_file(fn, pre_ref_resolution_callback=lambda m: setattr(m, "_tx_model_repository", GlobalModelRepository()) if hasattr(m, "_tx_metamodel") else None)
+            else:
+                v = mm_.model_from_file(fn)
+        obs["observed"] = repr(v)
+        return good and type(v) is type(expected) and v == expected, obs
+    except TextXSyntaxError as e:
+        obs["observed"] = "TextXSyntaxError"
+        return not good, obs
+    except Exception as e:
+        obs["observed"] = "%s: %s" % (type(e).__name__, str(e)[:150])
+        return False, obs
+
+
+def unit_root(arg):
+    u = Unit()
+    for rule in arg:
+        for text, expected in ROOT_LITERALS[rule]:
+            for loader in ROOT_LOADERS:
+                for good in (True, False):
+                    t = text if good else text + " ?"
+                    cid = ["root", rule, t, loader]
+                    ok, obs = root_case(rule, t, expected, loader, good)
+                    u.case(cid, nontrivial=True, sample=obs if loader != "str" else None)
+                    u.count("root-rule:" + loader)
+                    if not ok:
+                        u.fail(cid, {"kind": "root", "rule": rule, "text": t, "expected": repr(expected), "loader": loader, "good": good},
+                               sig="root %s %s" % (loader, good), what=repr(obs))
+    return u
+
+
 def chunks(it, n):
     it = list(it)
     return [it[i:i + n] for i in range(0, len(it), n)]
@@ -182,6 +240,7 @@ def run(ctx):
     nums += [("BOOL", t) for t in ("True", "true", "False", "false", "0", "1")]
     ctx.pmap(unit_nums, [(cfg, c) for cfg in CONFIGS for c in chunks(nums, 500)])
     ctx.pmap(unit_rereg, [[r] for r in REREG])
+    ctx.pmap(unit_root, [[r] for r in ROOT_LITERALS])
     return {
         "rule": "strings: all over %r up to length %d singly (x2 quote styles) and all ordered pairs up to length %d (x4 quote styles) on one line; "
                 "ints: sign x 1-4 digits over 019 through INT and NUMBER; floats: sign x int part x optional fraction x optional exponent through "
@@ -195,6 +254,8 @@ def replay(p):
     if p["kind"] == "rereg":
         u = unit_rereg([p["rule"]])
         return not u.fails, {"failures": [f["what"] for f in u.fails]}
+    if p["kind"] == "root":
+        return root_case(p["rule"], p["text"], eval(p["expected"]), p["loader"], p["good"])
     if p["kind"] == "strings":
         return check_strings(tuple(p["ss"]), tuple(p["quotes"]), p.get("cfg", ""))
     exp = eval(p["expected"])
